@@ -1,6 +1,6 @@
 (* Props/C01.v — snapshot reads are stable. *)
 From Coq Require Import List NArith Arith Bool.
-From SKV Require Import Base.Lex Txn.WriteSet Spec.Store Spec.Cursor Spec.Machine.
+From SKV Require Import Base.Lex Txn.WriteSet Spec.Store Spec.Cursor Spec.Machine Lsm.CompactKey Lsm.CompactKeySpec Lsm.CompactKey_proofs.
 Import ListNotations.
 
 (* On the specification a snapshot's view is a function of the first s commits only:
@@ -12,3 +12,15 @@ Proof.
   replace (s - length h) with 0 by (apply eq_sym, Nat.sub_0_le; exact Hs).
   cbn [firstn]. rewrite app_nil_r. reflexivity.
 Qed.
+
+(* A compaction of the versions of a key changes no answer of any reader that can exist — every
+   registered snapshot horizon and every horizon at or above the newest version — for ALL version
+   lists, snapshot sets, levels (bottom or not), versioning and retention settings. *)
+Theorem C01_compact_key_view : compact_key_view_stmt.
+Proof. exact compact_key_view. Qed.
+
+(* non-vacuity: a reader at horizon 1 keeps its value under a newer hard delete at the bottom level *)
+Example C01_compact_example :
+  compact_key true false 0 0 [1%N] [ {| vseq := 2; vkind := CDel; vts := 2 |}; {| vseq := 1; vkind := CSet; vts := 1 |} ]%N
+  = [ {| vseq := 2; vkind := CDel; vts := 2 |}; {| vseq := 1; vkind := CSet; vts := 1 |} ]%N.
+Proof. vm_compute. reflexivity. Qed.
